@@ -8,6 +8,7 @@ import (
 	"io"
 	"net"
 	"net/netip"
+	"os"
 	"regexp"
 	"runtime"
 	"strconv"
@@ -44,17 +45,23 @@ type Trace struct {
 	cond   *sync.Cond
 	start  time.Time
 	events []Event
+	out    io.Writer
 }
 
 func newTrace() *Trace {
-	t := &Trace{start: time.Now()}
+	t := &Trace{start: time.Now(), out: os.Stdout}
 	t.cond = sync.NewCond(&t.mu)
 	return t
 }
 
+// log appends an event and prints it at once (a crash of the process must not lose the trace).
 func (t *Trace) log(peer, ev string, args ...string) {
 	t.mu.Lock()
-	t.events = append(t.events, Event{Seq: len(t.events), T: int64(time.Since(t.start)), Peer: peer, Ev: ev, Args: args})
+	e := Event{Seq: len(t.events), T: int64(time.Since(t.start)), Peer: peer, Ev: ev, Args: args}
+	t.events = append(t.events, e)
+	if t.out != nil {
+		io.WriteString(t.out, e.String()+"\n")
+	}
 	t.mu.Unlock()
 	t.cond.Broadcast()
 }
@@ -125,9 +132,11 @@ type Env struct {
 	mu      sync.Mutex
 	localID netip.Addr
 	failed  []string
+	gates   gates
 }
 
 type Peer struct {
+	mark   int // trace index before which events belong to earlier connections
 	env    *Env
 	key    string
 	addr   netip.Addr
@@ -183,12 +192,53 @@ func newEnv(idx int, localID string) *Env {
 			e.tr.log(p.key, "log.undamp")
 		}
 	})
+	e.installHook()
 	var err error
 	e.srv, err = bgp.NewServer(e.localID)
 	if err != nil {
 		panic(err)
 	}
 	return e
+}
+
+// ---------------------------------------------------------------- schedule points
+
+type gates struct {
+	mu   sync.Mutex
+	held map[string]chan struct{}
+}
+
+// hold makes the next goroutines reaching the schedule point block until release is called.
+func (e *Env) hold(point string) (release func()) {
+	e.gates.mu.Lock()
+	if e.gates.held == nil {
+		e.gates.held = map[string]chan struct{}{}
+	}
+	ch := make(chan struct{})
+	e.gates.held[point] = ch
+	e.gates.mu.Unlock()
+	var once sync.Once
+	return func() {
+		once.Do(func() {
+			e.gates.mu.Lock()
+			delete(e.gates.held, point)
+			e.gates.mu.Unlock()
+			e.tr.log("-", "pt.release", point)
+			close(ch)
+		})
+	}
+}
+
+func (e *Env) installHook() {
+	bgp.VerifSetHook(func(point string, obj any) {
+		e.gates.mu.Lock()
+		ch := e.gates.held[point]
+		e.gates.mu.Unlock()
+		if ch != nil {
+			e.tr.log("-", "pt.reached", point)
+			<-ch
+		}
+	})
 }
 
 func (e *Env) fail(format string, a ...any) {
@@ -258,7 +308,7 @@ func (e *Env) addPeer(k int, o PeerOpts) *Peer {
 	id4 := e.localID.As4()
 	e.tr.log(p.key, "cfg", strconv.FormatUint(uint64(id4[0])<<24|uint64(id4[1])<<16|uint64(id4[2])<<8|uint64(id4[3]), 10),
 		strconv.FormatUint(uint64(o.LocalAS), 10), strconv.FormatUint(uint64(o.RemoteAS), 10), strconv.Itoa(int(o.Hold)),
-		strconv.Itoa(int(o.IdleHold/time.Millisecond)), strconv.Itoa(int(o.ConnectRetry/time.Millisecond)), term.B(o.Passive).String(), la)
+		strconv.Itoa(int(o.IdleHold/time.Millisecond)), strconv.Itoa(int(o.ConnectRetry/time.Millisecond)), term.B(o.Passive).String(), la, p.addr.String())
 	e.tr.log(p.key, "api.call", "AddPeer")
 	err := e.srv.AddPeer(p.cfg, p.plugin, opts...)
 	e.tr.log(p.key, "api.ret", "AddPeer", errName(err))
@@ -332,6 +382,33 @@ func (e *Env) close() {
 		}
 	}
 	e.tr.log("-", "goroutines", strconv.Itoa(corebgpGoroutines()))
+	e.settle()
+}
+
+// settle gives the remote readers time to observe what corebgp wrote last (Cease, EOF) so that the
+// trace is complete before it is dumped.
+func (e *Env) settle() {
+	deadline := time.Now().Add(1500 * time.Millisecond)
+	for time.Now().Before(deadline) {
+		open := 0
+		e.mu.Lock()
+		for _, p := range e.peers {
+			p.remote.mu.Lock()
+			for _, c := range p.remote.conns {
+				c.mu.Lock()
+				if c.ended == "" && !c.closed {
+					open++
+				}
+				c.mu.Unlock()
+			}
+			p.remote.mu.Unlock()
+		}
+		e.mu.Unlock()
+		if open == 0 {
+			return
+		}
+		time.Sleep(time.Millisecond)
+	}
 }
 
 func (p *Peer) delete() {
@@ -468,7 +545,7 @@ func (pl *Plugin) OnEstablished(c bgp.PeerConfig, w bgp.UpdateMessageWriter) bgp
 	pl.mu.Unlock()
 	pl.tr().log(pl.peer.key, "cb.enter", "OnEstablished", g, wid)
 	for _, b := range pl.WriteInEstablished {
-		pl.write(w, wid, b)
+		pl.write(w, wid, append([]byte{byte(pl.writerSeq)}, b...))
 	}
 	for _, bodies := range pl.Writers {
 		bodies := bodies
@@ -499,7 +576,7 @@ func (pl *Plugin) OnEstablished(c bgp.PeerConfig, w bgp.UpdateMessageWriter) bgp
 		pl.mu.Unlock()
 		pl.tr().log(pl.peer.key, "cb.enter", "handler", g, hx(u))
 		for _, b := range pl.WriteInHandler {
-			pl.write(w, wid, b)
+			pl.write(w, wid, append([]byte{byte(pl.writerSeq), byte(k)}, b...))
 		}
 		var n *bgp.Notification
 		if pl.HandlerVeto == k {
@@ -656,16 +733,18 @@ func (c *Conn) readLoop() {
 		if err != nil {
 			c.mu.Lock()
 			closed := c.closed
-			if err == io.EOF {
-				c.ended = "eof"
-			} else {
-				c.ended = "rst"
-			}
-			e := c.ended
 			c.mu.Unlock()
+			e := "rst"
+			if err == io.EOF {
+				e = "eof"
+			}
 			if !closed {
 				c.r.tr().log(c.r.peer.key, "r."+e, c.id)
 			}
+			// only now visible to waiters: the event is in the trace before anyone acts on the end
+			c.mu.Lock()
+			c.ended = e
+			c.mu.Unlock()
 			return
 		}
 	}
